@@ -7,7 +7,7 @@ from .. import core, eqv, gens, values
 
 ID = 'C10'
 LEVEL = 'exploration'
-RULE = ('case = (container tree over list/tuple/set/frozenset/dict with lengths 0..6, optionally reached through '
+RULE = ('sibling family: in a namedtuple / SimpleNamespace / exception / list / dict holding (a, b) the text of b under max_seq_len=N (b = nested lists shorter than N) is its text when printed alone, whatever a is (int, a list longer than N, a 2-D / 3-D numpy array with the bundled numpy extra installed). Main family: case = (container tree over list/tuple/set/frozenset/dict with lengths 0..6, optionally reached through '
         'pretty_call objects with one or several positional/keyword arguments, optionally wrapped in comment() / trailing_comment(), or held by standard-library containers (deque, '
         'OrderedDict, defaultdict, Counter, ChainMap, mappingproxy, namedtuple, SimpleNamespace; N >= 2 there), N in {1..maxlen+1, None, 10^6, '
         'default}, width, indent). Exhaustive: shapes built from lengths {0,1,2,3} nested to depth 2 over all five '
